@@ -10,7 +10,10 @@ FILES = ["workload/graph.py", "workload/tasks.py", "workload/jobs.py"]
 TRUSTED = [
     "coq/Model/Graph.v is a hand-written Gallina transcription of workload/graph.py (dicts as insertion-ordered "
     "association lists, generators as (yielded list, exception code), loops with fuel proved adequate); it is tied to "
-    "the source by the S-graph correspondence stream only (no translator fragment)",
+    "the source by the S-graph correspondence stream, and its decisive expressions (relaxation test and back-tracking "
+    "test of get_longest_path, default weights, branch of are_dependent, default func / source depth / increment of "
+    "get_node_depth, the mark dispatch of visit()) are regenerated from the source by translator/frag_graph.py and "
+    "bridged to the model in Proofs/GraphPBridge.v; the loop structure of the traversals is checked structurally only",
     "Python's recursion limit (visit() recurses once per node of a path) and set/dict hashing of node objects are "
     "not modelled; `if node:` in breadth_first is modelled for truthy node objects",
     "TaskGraph/JobGraph wrappers (critical_path_runtime, completion_time, get_source_tasks, get_sink_tasks) are tied "
@@ -85,8 +88,10 @@ def weights(rng, ns, zero=False):
 
 def full_case(m, rng, fuel=400, zero=False):
     ns = node_order(m)
-    return {"map": m, "w": weights(rng, ns, zero), "nodes": ns + [max(ns + [0]) + 1],
-            "pairs": [[u, v] for u in ns for v in ns], "fuel": fuel}
+    unk = max(ns + [0]) + 1
+    return {"map": m, "w": weights(rng, ns, zero), "nodes": ns + [unk],
+            "pairs": [[u, v] for u in ns for v in ns] + ([[ns[0], unk], [unk, ns[0]]] if ns else [[unk, unk]]),
+            "fuel": fuel}
 
 
 def random_dag(rng, n, p):
@@ -104,8 +109,10 @@ def sampled_case(m, rng, fuel, zero=False):
     for n, cs in m:
         if cs and rng.random() < 0.3:
             pairs.append([n, rng.choice(cs)])
-    return {"map": m, "w": weights(rng, ns, zero), "nodes": qs + [max(ns + [0]) + 1], "pairs": pairs[:14],
-            "fuel": fuel}
+    unk = max(ns + [0]) + 1
+    if ns:
+        pairs = pairs[:13] + [[rng.choice(ns), unk] if rng.random() < 0.5 else [unk, rng.choice(ns)]]
+    return {"map": m, "w": weights(rng, ns, zero), "nodes": qs + [unk], "pairs": pairs, "fuel": fuel}
 
 
 def g_case(c):
@@ -201,7 +208,7 @@ def gen_cases(ctx):
         for edges in all_dags(n):
             cases.append(("exh%d" % n, full_case(mapping_of(n, edges), rng)))
     # seeded sample of the next size(s), in shuffled dict order
-    for n, cnt in ([(5, 250)] if quick else [(6, 6000)]):
+    for n, cnt in ([(5, 250)] if quick else [(6, 2000)]):
         ds = all_dags(n) if n <= 5 else None
         for _ in range(cnt):
             if ds is not None:
@@ -209,6 +216,17 @@ def gen_cases(ctx):
             else:
                 edges = random_dag(rng, n, rng.choice([0.2, 0.4, 0.6, 0.8]))
             cases.append(("samp%d" % n, full_case(mapping_of(n, edges, rng), rng)))
+    # thorough: every 6-node DAG shape (all 2^15 edge sets that are forward w.r.t. a fixed order cover every
+    # unlabelled 6-node DAG), each in a seeded labelling and dict order
+    if not quick:
+        pairs6 = [(i, j) for i in range(6) for j in range(i + 1, 6)]
+        for mask in range(1 << len(pairs6)):
+            perm = list(range(6))
+            rng.shuffle(perm)
+            edges = [(perm[i], perm[j]) for b, (i, j) in enumerate(pairs6) if mask >> b & 1]
+            c = full_case(mapping_of(6, edges, rng), rng)
+            c["pairs"] = rng.sample(c["pairs"][:-2], 12) + c["pairs"][-2:]
+            cases.append(("shape6", c))
     # shuffled dict orders of small DAGs
     small = all_dags(4)
     for _ in range(100 if quick else 1500):
@@ -291,6 +309,7 @@ def g_mon_case(c, items):
 
 def run(ctx):
     ctx.fingerprint(FILES)
+    ctx.translate(["Graph"])      # Gen/Src_Graph.v: the decisive expressions of graph.py (bridge: Proofs/GraphPBridge.v)
     built = ctx.build("C17", deps=["Model/Graph.v"])
     cases = gen_cases(ctx)
     if getattr(ctx, "replay_file", None):
@@ -304,7 +323,7 @@ def run(ctx):
     corpus = load_corpus()
     payload["cases"] += [w["case"] for w in corpus]
     # the wrappers: positive weights, acyclic, simple graphs only (Task/Job objects)
-    wr = [c for k, c in cases if k in ("exh3", "exh4", "samp5", "samp6", "rand", "shuf4")]
+    wr = [c for k, c in cases if k in ("exh3", "exh4", "samp5", "samp6", "shape6", "rand", "shuf4")]
     wr = wr[:: max(1, len(wr) // (150 if ctx.tier == "quick" else 1500))]
     payload["wrappers"] = wr
     # Graph.remove (dead code in the simulator: only TaskGraph.clean calls it): correspondence only
@@ -323,7 +342,7 @@ def run(ctx):
 
     ctx.rules.append(
         "S-graph: every labelled DAG on <= %d nodes (exhaustive, ascending dict order) + seeded samples of the next size in "
-        "shuffled dict/children order, random DAGs on 6..40 nodes, cyclic graphs (back edges, self loops), graphs with "
+        "shuffled dict/children order (thorough: every unlabelled 6-node DAG shape in a seeded labelling), random DAGs on 6..40 nodes, cyclic graphs (back edges, self loops), graphs with "
         "parallel edges, zero weights; weights 1 (all ties) or random in 1..{2,3,9,1000}; every public routine of Graph "
         "observed for every node / node pair (sampled on large graphs) incl. a node outside the graph; "
         "distinct = distinct (mapping, weights); non-trivial = >= 3 nodes, >= 2 edges and (>= 2 sources or a node "
